@@ -279,8 +279,7 @@ Qed.
 Theorem iter_sources_supported : forallb (fun f => supported (f_body f)) iter_sources = true.
 Proof. vm_compute. reflexivity. Qed.
 
-Theorem all_sources_supported : forallb (fun f => supported (f_body f)) all_sources = true.
-Proof. vm_compute. reflexivity. Qed.
+(* (the whole-table check would tie this file to the aggregations as well: agg_sources_supported lives in PylEquivAgg.v) *)
 
 Print Assumptions src_filter_ok.
 Print Assumptions src_enumerate_ok.
@@ -294,4 +293,3 @@ Print Assumptions src_map_ok.
 Print Assumptions src_compress_ok.
 Print Assumptions src_islice_ok.
 Print Assumptions iter_sources_supported.
-Print Assumptions all_sources_supported.
